@@ -192,21 +192,18 @@ Theorem C09_join_total :
 Proof. exact join_fixed_total. Qed.
 Print Assumptions C09_join_total.
 
-(* It raises ValueError exactly for fewer than two inputs or a malformed
-   date/time (nothing is written in that case). *)
+(* It raises ValueError for fewer than two inputs or a date/time that is not
+   a real date/time.  Stated on the domain where the model of strptime/float
+   is exact ([dt_shape_strict]: two-digit fields, ".digits" fractions); Python
+   accepts further spellings ("2024-3-5", "1:02:03", ".5e1", "inf"), about
+   which nothing is claimed. *)
 Theorem C09_join_rejects_malformed :
   forall inputs : list meas,
+    (forall m, In m inputs -> dt_shape_strict m = true) ->
     (length inputs < 2)%nat \/ (exists m, In m inputs /\ wf_datetime m = false) ->
     join_fixed inputs = Err EValue.
-Proof. exact join_rejects. Qed.
+Proof. exact join_rejects_strict. Qed.
 Print Assumptions C09_join_rejects_malformed.
-
-Theorem C09_join_value_error_only_if :
-  forall inputs : list meas,
-    join_fixed inputs = Err EValue ->
-    (length inputs < 2)%nat \/ (exists m, In m inputs /\ wf_datetime m = false).
-Proof. exact join_value_error_only_if. Qed.
-Print Assumptions C09_join_value_error_only_if.
 
 (* "restricted to the features available in every input": every exported
    feature is stored or computable in every input, the earliest included. *)
@@ -318,13 +315,15 @@ Print Assumptions C09_join_trace_consistent_refuted.
 
 (* Joining the parts of a split, given in order (any N, any 0 < k < N, i.e. at
    least two parts; s0/s1: the first/last event was skipped as an empty
-   boundary image): succeeds, exports the innate features, and every column is
-   the original one without the skipped boundary events; index is 1..N',
-   index_online follows its block rule over the same windows. *)
-Theorem C09_join_of_split :
+   boundary image; no part consists of skipped events only): succeeds, exports
+   the innate features, and every column is the original one without the
+   skipped boundary events; index is 1..N', index_online follows its block
+   rule over the same windows. *)
+Theorem C09_join_of_split_partial :
   forall (m : meas) (n k : Z) (s0 s1 : bool),
     0 < k -> k < n -> wf_meas m ->
     (forall f c, lookup_col f (m_cols m) = Some c -> Z.of_nat (length c) = n) ->
+    no_empty_part n k s0 s1 = true ->
     exists j,
       join_fixed (split_meas m n k s0 s1) = Ok j
       /\ j_feats j = py_sorted Z.leb (m_innate m)
@@ -338,4 +337,25 @@ Theorem C09_join_of_split :
                lookup_col f (j_cols j)
                = Some (spec_ido_blocks (split_parts c k s0 s1))).
 Proof. exact join_of_split. Qed.
-Print Assumptions C09_join_of_split.
+Print Assumptions C09_join_of_split_partial.
+
+(* Without that guard it is false (finding C09-split-empty-part): an
+   event-less first part is the earliest input and has no features, so the
+   joined file has none and counts 0 events ... *)
+Theorem C09_join_of_split_refuted :
+  exists m n k s0 s1,
+    0 < k /\ k < n /\ wf_meas m
+    /\ (forall f c, lookup_col f (m_cols m) = Some c -> Z.of_nat (length c) = n)
+    /\ no_empty_part n k s0 s1 = false
+    /\ exists j, join_fixed (split_meas m n k s0 s1) = Ok j
+                 /\ j_feats j = [] /\ j_count j = 0.
+Proof. exact join_of_split_refuted. Qed.
+Print Assumptions C09_join_of_split_refuted.
+
+(* ... and an event-less last part makes join raise ValueError when "index"
+   is stored. *)
+Theorem C09_join_of_split_refuted_error :
+  join_fixed (split_meas m_ex 5 2 false true) = Err EValue
+  /\ no_empty_part 5 2 false true = false.
+Proof. exact join_of_split_refuted_error. Qed.
+Print Assumptions C09_join_of_split_refuted_error.
